@@ -29,6 +29,118 @@ func schedCheck(r *vsched.Result) explore.Verdict {
 	return explore.Verdict{Outcome: out}
 }
 
+// c17stream: one writer, many messages of varying sizes through one service
+// peer, several laps round the 16 KiB outgoing ring (default schedule).  The
+// outgoing path keeps per-connection scratch state (a wrap buffer that only
+// grows), so what a wrapping packet looks like on the wire may depend on the
+// packets that wrapped before it.
+func c17stream(c *core.Ctx) {
+	patterns := map[string][]int{
+		"mixed":      {6000, 6000, 8000, 6000, 6000, 1000, 3000, 200},
+		"decreasing": {8000, 7000, 5000, 3000, 2000, 1200, 700, 300, 100, 20},
+		"increasing": {20, 100, 300, 700, 1200, 2000, 3000, 5000, 7000, 8000},
+		"primes":     {4099, 1031, 6011, 257, 7919, 67, 2053, 5003},
+		"tiny":       {1, 2, 3, 5, 8, 13, 21, 34, 55, 89, 144, 233},
+	}
+	names := []string{"mixed", "decreasing", "increasing", "primes", "tiny"}
+	for ni, pn := range names {
+		if c.NShards > 1 && ni%c.NShards != c.Shard {
+			continue
+		}
+		if c.Replay != nil && c.Replay.Scenario != "stream "+pn {
+			continue
+		}
+		if c.Expired() || c.HasViolation() {
+			return
+		}
+		sizes := patterns[pn]
+		laps := 4
+		if c.Thorough() {
+			laps = 12
+		}
+		body := func() {
+			service.VerifResetGlobals()
+			message.VerifSetPacketIDCounter(0)
+			topics.VerifResetProviders()
+			ln, err := vnet.Listen("tcp", addr)
+			if err != nil {
+				vsched.Failf("harness: %v", err)
+				return
+			}
+			cconn, _ := vnet.Dial("tcp", addr)
+			sconn, _ := ln.Accept()
+			peer, err := service.VerifNewPeer(cconn, true, 16384, 600, "peer", nil)
+			if err != nil {
+				vsched.Failf("harness: %v", err)
+				return
+			}
+			rd := &RawClient{Name: "reader", Conn: sconn, vc: sconn.(*vnet.Conn), pendRel: map[uint16]bool{}}
+			sent := 0
+			k := 0
+			for sent < laps*16384 {
+				n := sizes[k%len(sizes)]
+				m := message.NewPublishMessage()
+				m.SetTopic([]byte("s"))
+				m.SetPayload([]byte(fmt.Sprintf("%06d:%s", k, big(n, byte(k)))))
+				if err := peer.Publish(m, nil); err != nil {
+					vsched.Failf("publish %d failed: %v", k, err)
+					return
+				}
+				sent += m.Len()
+				k++
+				for i := 0; i < 32; i++ {
+					vsched.Quiesce()
+					if !rd.pump() {
+						break
+					}
+				}
+				if rd.Bad != "" {
+					vsched.Failf("after message %d (%d payload bytes, %d bytes written in all): %s", k-1, n, sent, rd.Bad)
+					return
+				}
+			}
+			if len(rd.rx) > 0 {
+				vsched.Failf("the stream ends with %d bytes of an incomplete packet", len(rd.rx))
+				return
+			}
+			got := rd.Take()
+			if len(got) != k {
+				vsched.Failf("%d messages were written, %d packets arrived", k, len(got))
+				return
+			}
+			for i, p := range got {
+				n := sizes[i%len(sizes)]
+				if p.Type != refcodec.PUBLISH || string(p.Topic) != "s" || string(p.Payload) != fmt.Sprintf("%06d:%s", i, big(n, byte(i))) {
+					vsched.Failf("packet %d on the stream is not message %d as it was written", i, i)
+					return
+				}
+			}
+			vsched.Logf("ok %d", k)
+		}
+		res := explore.RunDefault(body)
+		if c.Replay != nil {
+			fmt.Println("replay: stream", pn, res.Failures, firstLine(res.Crash))
+			c.Rep.Scenarios++
+			return
+		}
+		c.Rep.Executions++
+		c.Rep.States++
+		c.Rep.Scenarios++
+		c.Rep.Transitions += int64(len(res.Points))
+		v := ""
+		if res.Status == vsched.StCrash {
+			v = "a library goroutine panicked: " + firstLine(res.Crash)
+		} else if len(res.Failures) > 0 {
+			v = res.Failures[0]
+		}
+		if v != "" {
+			if c.Violate("C17 stream "+pn+" :: "+violClass(v), core.Replay{Scenario: "stream " + pn, Message: v, Log: res.Log}) {
+				return
+			}
+		}
+	}
+}
+
 // narrowPeer: several goroutines deliver to one connection at once.
 func c17narrow(c *core.Ctx) {
 	type scen struct {
@@ -367,8 +479,12 @@ func c17wrap(c *core.Ctx) {
 
 // C17: whole packets, per-publisher order.
 func C17(c *core.Ctx) {
-	c.Rep.Bound = "SCHED: (narrow) 2-3 goroutines publishing 1-2 messages each through one service peer whose out ring was pre-rolled so that a packet wraps, all interleavings for one message per goroutine, <= 2 (quick) / 3 (thorough) preemptions otherwise; (broker) 2 raw publishers x 1-3 messages at QoS 0/1/2 to 2 subscribers through the real broker, every schedule that deviates from the default (run-until-blocked, lowest thread first) schedule at <= 1 (quick) / 2 (thorough) scheduling points, after a default-schedule set-up"
+	c.Rep.Bound = "(stream, default schedule) one writer, five size patterns, 4 (quick) / 12 (thorough) laps round the outgoing ring; SCHED: (narrow) 2-3 goroutines publishing 1-2 messages each through one service peer whose out ring was pre-rolled so that a packet wraps, all interleavings for one message per goroutine, <= 2 (quick) / 3 (thorough) preemptions otherwise; (broker) 2 raw publishers x 1-3 messages at QoS 0/1/2 to 2 subscribers through the real broker, every schedule that deviates from the default (run-until-blocked, lowest thread first) schedule at <= 1 (quick) / 2 (thorough) scheduling points, after a default-schedule set-up"
 	c.Rep.Rule = "oracle at quiescence: every connection's byte stream parses under the strict reference codec into whole packets, each message arrives exactly once with intact topic and payload, and the sequence numbers of each publisher arrive in order at each subscriber"
+	c17stream(c)
+	if c.HasViolation() || c.Expired() {
+		return
+	}
 	c17narrow(c)
 	if c.HasViolation() {
 		return
